@@ -1795,7 +1795,54 @@ def query_consts(names, header_extra=""):
     return _run_ir(src, names)
 
 
+def _cached_clang_ir(src):
+    """clang -S -emit-llvm on a small probe source, cached by (tree hash, probe text)"""
+    import hashlib
+    key = hashlib.sha256((astdump.tree_hash() + src).encode()).hexdigest()[:24]
+    cp = os.path.join(astdump.CACHE, "ir-" + key + ".ll")
+    if os.path.exists(cp):
+        with open(cp) as fh:
+            return 0, fh.read(), ""
+    if os.path.exists(cp + ".err"):
+        with open(cp + ".err") as fh:
+            return 1, "", fh.read()
+    r = subprocess.run([astdump.CLANG] + astdump.cflags() + ["-O0", "-S", "-emit-llvm", "-x", "c", "-", "-o", "-"],
+                       input=src, stdout=subprocess.PIPE, stderr=subprocess.PIPE, text=True)
+    os.makedirs(astdump.CACHE, exist_ok=True)
+    dst = cp if r.returncode == 0 else cp + ".err"
+    with open(dst + ".tmp%d" % os.getpid(), "w") as fh:
+        fh.write(r.stdout if r.returncode == 0 else (r.stderr or "error"))
+    os.replace(dst + ".tmp%d" % os.getpid(), dst)
+    return r.returncode, r.stdout, r.stderr
+
+
 def _run_ir(src, names):
+    rc, out, err = _cached_clang_ir(src)
+    if rc != 0:
+        raise RuntimeError("const query failed: " + err[-3000:])
+
+    class R:
+        pass
+    r = R()
+    r.returncode, r.stdout, r.stderr = rc, out, err
+    return _parse_ir(r, names)
+
+
+def _parse_ir(r, names):
+    vals = {}
+    cs = dict(re.findall(r"@verif_c_(\d+) = .*?constant i64 (-?\d+)", r.stdout))
+    ss = dict(re.findall(r"@verif_s_(\d+) = .*?constant i32 (-?\d+)", r.stdout))
+    for i, nm in enumerate(names):
+        v = int(cs[str(i)])
+        if v < 0:
+            v += 1 << 64
+        if int(ss.get(str(i), "0")):
+            v -= 1 << 64
+        vals[nm] = v
+    return vals
+
+
+def _run_ir_uncached(src, names):
     r = subprocess.run([astdump.CLANG] + astdump.cflags() + ["-O0", "-S", "-emit-llvm", "-x", "c", "-", "-o", "-"],
                        input=src, stdout=subprocess.PIPE, stderr=subprocess.PIPE, text=True)
     if r.returncode != 0:
@@ -1818,8 +1865,12 @@ def query_types(names):
     for i, nm in enumerate(names):
         src += "const unsigned long long verif_c_%d = sizeof(%s);\n" % (i, nm)
         src += "const int verif_s_%d = ((%s)-1 < 0);\n" % (i, nm)
-    r = subprocess.run([astdump.CLANG] + astdump.cflags() + ["-O0", "-S", "-emit-llvm", "-x", "c", "-", "-o", "-"],
-                       input=src, stdout=subprocess.PIPE, stderr=subprocess.PIPE, text=True)
+    rc, out, err = _cached_clang_ir(src)
+
+    class R:
+        pass
+    r = R()
+    r.returncode, r.stdout, r.stderr = rc, out, err
     if r.returncode != 0:
         raise Unsupported("type query failed for %s: %s" % (names, r.stderr[-500:]))
     cs = dict(re.findall(r"@verif_c_(\d+) = .*?constant i64 (-?\d+)", r.stdout))
